@@ -85,12 +85,22 @@ def assign_twice(tree):
     seen = set()
     for st in tree.body:
         names = []
+
+        def collect(t):
+            if isinstance(t, ast.Name):
+                names.append(t.id)
+            elif isinstance(t, (ast.Tuple, ast.List)):
+                for e in t.elts:
+                    collect(e)
         if isinstance(st, ast.Assign):
             for t in st.targets:
-                if isinstance(t, ast.Name):
-                    names.append(t.id)
-                elif isinstance(t, ast.Tuple):
-                    names += [e.id for e in t.elts if isinstance(e, ast.Name)]
+                collect(t)
+        else:
+            # names bound by other module-level statements (for targets, nested assignments in if/for bodies)
+            # count as seen, so that a later plain assignment is not preceded by `name = None`
+            for sub in ast.walk(st):
+                if isinstance(sub, ast.Name) and isinstance(sub.ctx, ast.Store):
+                    seen.add(sub.id)
         for n in names:
             if n not in seen:
                 seen.add(n)
